@@ -215,6 +215,23 @@ func (propC10) Check(c *Case) (*Violation, *RunInfo) {
 		envR.NoFaultOp, envR.UpTo = i, i
 		rh := Exec(refRec, envR)
 		ref := &rh[i]
+		// second reference: the same history in a world where no fault ever fired. On code
+		// that keeps the property the two agree; if they differ, an earlier failed call has
+		// changed what this call delivers, so "exactly the rendered output" no longer holds.
+		envC := newEnv(c.Execs[0].sim())
+		envC.Sandbox = sandbox + "/c"
+		envC.NoFaults, envC.UpTo = true, i
+		cleanRec := refRec
+		if op.K == "save" {
+			cleanRec = refRec
+		}
+		ch := Exec(cleanRec, envC)
+		clean := &ch[i]
+		if viol == nil && ref.Panic == "" && clean.Panic == "" && (ref.class() != clean.class() || (ref.OK && !bytes.Equal(ref.Out, clean.Out))) {
+			viol = &Violation{Rule: "C10-A3-output-tainted-by-earlier-failure", Op: i,
+				Detail:   fmt.Sprintf("op %d (%s %s): rendered without any fault at this call, the output differs depending on whether EARLIER calls of the history met their faults: after the failed calls it is not the rendered output (%s)", i, a.Kind, a.Obj, firstDiff(clean.Out, ref.Out)),
+				Expected: clean.class() + " " + trunc(string(clean.Out), 600), Observed: ref.class() + " " + trunc(string(ref.Out), 600)}
+		}
 		fk := faultKind(op, a)
 		valid := "valid"
 		if !ref.OK {
